@@ -259,7 +259,9 @@ class SInt:
         return id(self)
 
     def __index__(self):
-        raise HarnessError('symbolic int used where a concrete int is required (len/range/slice index)')
+        # len(), range(), slicing, bytes(n): CPython needs a machine integer.  The value is concretised by case
+        # split inside the explorer's index bounds; values outside are pruned and recorded (Explorer.pruned).
+        return concretize(self)
 
     def __repr__(self):
         return f'SInt({self.e})'
@@ -273,6 +275,33 @@ class SInt:
         if _CTX is None:
             return f'<sym {self.e}>'
         return _CTX.token(self.e)
+
+
+def concretize(x, lo=None, hi=None):
+    """Case split of a symbolic integer over [lo, hi] (default: the explorer's index bounds).  The region outside
+    the interval is cut off: its condition is recorded in Explorer.pruned so that coverage stays checkable."""
+    if isinstance(x, bool):
+        return int(x)
+    if isinstance(x, int):
+        return x
+    if isinstance(x, SBool):
+        return 1 if bool(x) else 0
+    if _CTX is None:
+        raise HarnessError('symbolic int concretised outside a natsym run')
+    ex = _CTX.ex
+    lo = ex.index_bounds[0] if lo is None else lo
+    hi = ex.index_bounds[1] if hi is None else hi
+    e = z3.simplify(x.e)
+    if z3.is_int_value(e):
+        return e.as_long()
+    if not _CTX.decide(z3.And(e >= lo, e <= hi)):
+        ex.pruned.append(z3.And(*_CTX.pc))
+        raise PathAbort('index outside the concretisation bounds')
+    for v in range(lo, hi):
+        if _CTX.decide(e == v):
+            return v
+    _CTX.pc.append(e == hi)
+    return hi
 
 
 TOKEN_RE = r'⟦\d+⟧'
@@ -339,7 +368,7 @@ class Outcome:
 
 
 class Explorer:
-    def __init__(self, constraints=(), max_paths=5000, max_decisions=60, timeout_ms=20000):
+    def __init__(self, constraints=(), max_paths=5000, max_decisions=60, timeout_ms=20000, index_bounds=(0, 8)):
         self.solver = z3.Solver()
         self.solver.set('timeout', timeout_ms)
         self.constraints = list(constraints)
@@ -349,6 +378,8 @@ class Explorer:
         self.solver_calls = 0
         self.paths = 0
         self.choice_vars = {}
+        self.index_bounds = index_bounds
+        self.pruned = []      # path conditions cut off by concretize() (outside the index bounds)
 
     def run(self, body):
         """body() -> value or coroutine.  Returns one Outcome per feasible path."""
@@ -370,6 +401,11 @@ class Explorer:
                     try:
                         r = loop.run_until_complete(r)
                     finally:
+                        _CTX = None   # finalisers of abandoned async generators must not branch
+                        try:
+                            loop.run_until_complete(loop.shutdown_asyncgens())
+                        except Exception:
+                            pass
                         loop.close()
                 outs.append(Outcome(ctx.pc, value=r, notes=ctx.notes, decisions=ctx.decisions))
             except PathAbort:
@@ -384,11 +420,14 @@ class Explorer:
         return outs
 
     def covers(self, outs, extra=()):
-        """z3 check that the path conditions are exhaustive under the constraints: returns 'unsat' when
-        constraints ∧ ¬(pc_1 ∨ … ∨ pc_n) has no model."""
+        """z3 check that the explored paths plus the regions cut off by the index bounds are exhaustive under the
+        constraints: returns 'unsat' when constraints ∧ ¬(pc_1 ∨ … ∨ pc_n ∨ pruned_1 ∨ …) has no model."""
         s = z3.Solver()
         s.set('timeout', 60000)
         s.add(*self.constraints)
         s.add(*extra)
-        s.add(z3.Not(z3.Or(*[o.cond for o in outs])) if outs else z3.BoolVal(True))
+        for name, (x, options) in self.choice_vars.items():
+            s.add(x >= 0, x < len(options))
+        conds = [o.cond for o in outs] + list(self.pruned)
+        s.add(z3.Not(z3.Or(*conds)) if conds else z3.BoolVal(True))
         return str(s.check())
